@@ -89,7 +89,7 @@ func (c Case) emptyCollection() bool {
 	switch c.Shape {
 	case shArray:
 		return len(c.Items) == 0
-	case shObject, shMap, shMapOfArray, shMapOfObject:
+	case shObject, shMap, shMapOfArray, shMapOfObject, shObjWithMap, shObjWithObj:
 		return len(c.setFields()) == 0
 	}
 	return false
@@ -134,7 +134,7 @@ func encodeParameter(c Case) func(e uri.Encoder) error {
 				return enc()
 			}
 			return nil
-		case shObject, shMap, shMapOfArray, shMapOfObject, shObjWithArr:
+		case shObject, shMap, shMapOfArray, shMapOfObject, shObjWithArr, shObjWithMap, shObjWithObj:
 			if !c.Required && c.Absent { // OptX not set
 				return nil
 			}
@@ -225,6 +225,21 @@ func encodeURI(c Case, e uri.Encoder) error {
 				}
 				return nil
 			})
+		})
+	case shObjWithMap, shObjWithObj:
+		// struct{a map[string]string} / struct{a struct{b string}}: the member's EncodeURI writes fields
+		return e.EncodeField("a", func(e uri.Encoder) error {
+			for _, f := range c.Fields {
+				f := f
+				name := string(f.Name)
+				if c.Shape == shObjWithObj {
+					name = "b"
+				}
+				if err := e.EncodeField(name, func(e uri.Encoder) error { return e.EncodeValue(string(f.Val)) }); err != nil {
+					return err
+				}
+			}
+			return nil
 		})
 	case shMapOfObject:
 		for _, f := range c.Fields {
@@ -409,6 +424,21 @@ func decodeParameter(c Case, out *Decoded) func(d uri.Decoder) error {
 				out.Obj[k] = strings.Join(elem, "\x00")
 				return nil
 			})
+		case shObjWithMap, shObjWithObj:
+			out.Obj = map[string]string{}
+			return d.DecodeFields(func(k string, d uri.Decoder) error {
+				if k != "a" {
+					return nil
+				}
+				return d.DecodeFields(func(k2 string, d uri.Decoder) error {
+					val, err := d.DecodeValue()
+					if err != nil {
+						return err
+					}
+					out.Obj[k2] = val
+					return nil
+				})
+			})
 		case shObjWithArr:
 			out.Obj = map[string]string{}
 			return d.DecodeFields(func(k string, d uri.Decoder) error {
@@ -466,7 +496,7 @@ func decodeParameter(c Case, out *Decoded) func(d uri.Decoder) error {
 // objectFieldsLiteral is template function paramObjectFields: only struct
 // parameters get a Fields list (gen/templates.go isObjectParam).
 func objectFieldsLiteral(c Case) []uri.QueryParameterObjectField {
-	if c.Shape == shObjWithArr {
+	if c.Shape == shObjWithArr || c.Shape == shObjWithMap || c.Shape == shObjWithObj {
 		return []uri.QueryParameterObjectField{{Name: "a", Required: false}}
 	}
 	if c.Shape != shObject {
@@ -505,7 +535,7 @@ func serverDecode(c Case, pathArg string, query url.Values, hdr http.Header) (ou
 			Style:   uri.QueryStyle(c.Style),
 			Explode: c.Explode,
 		}
-		if c.Shape == shObject || c.Shape == shObjWithArr { // {{- if isObjectParam $p }}
+		if c.Shape == shObject || c.Shape == shObjWithArr || c.Shape == shObjWithMap || c.Shape == shObjWithObj { // {{- if isObjectParam $p }}
 			cfg.Fields = objectFieldsLiteral(c)
 		}
 		if err := q.HasParam(cfg); err == nil {
